@@ -1,7 +1,7 @@
 """Entry point:  python3 -m pkv.main <ID> [quick|thorough] [--replay FILE]"""
 import json, os, sys, traceback
 from .common import Report, VERIF
-from .facts import extract, FactError, REPO
+from .facts import extract, FactError, REPO, FLAVOURS, extra_flavours, stable_lints
 from .extract import Ctx
 from .mirtab import Undecided
 from . import rules_scancode as RS
@@ -177,11 +177,36 @@ def run(prop, tier):
     rep.trusted = list(TRUSTED_COMMON)
     # both build flavours in both tiers: a defect hidden behind cfg(debug_assertions) / overflow behaviour
     # passes the (debug-profile) test suite but must not pass the checks
-    flavours = ['dev', 'rel']
-    for fl in flavours:
+    flavours = [('dev', FLAVOURS['dev']), ('rel', FLAVOURS['rel'])]
+    # build configurations the crate itself distinguishes (cfg on debug_assertions / overflow_checks / panic / features)
+    # are analysed as well; predicates that cannot be varied on this host fail closed
+    try:
+        extra, unsupported = extra_flavours(REPO)
+    except Exception as e:
+        extra, unsupported = {}, ['cfg scan failed: %r' % (e,)]
+    for nm, spec in extra.items():
+        if not any(spec == s_ or (spec['da'], spec['oc'], spec['panic'], spec.get('features')) == (s_['da'], s_['oc'], s_['panic'], s_.get('features'))
+                   for _n, s_ in flavours):
+            flavours.append((nm, spec))
+    if unsupported:
+        rep.finding('BUILD-CFG conditional compilation on %s' % ','.join(sorted(set(unsupported))),
+                    'the crate compiles different code depending on %s, which this host analysis cannot vary: a verdict about the analysed '
+                    'configuration does not carry over to the others; fails closed' % sorted(set(unsupported)))
+    # the users' toolchain is stable, the analysed MIR comes from nightly: names that resolve differently are flagged by rustc
+    try:
+        hits, _rc = stable_lints(REPO)
+        for h in hits:
+            rep.finding('BUILD-TOOLCHAIN ' + h.split(' at ')[0] + ' ' + h.split(' at ')[1].split(':')[0],
+                        'the stable toolchain warns that a call resolves to a local trait method only because the like-named library method is '
+                        'still unstable there; on the analysed nightly it resolves to the library method, so the analysed program differs from '
+                        'what users build: %s; fails closed' % h)
+    except Exception as e:
+        rep.note('stable-toolchain lint pass skipped: %r' % (e,))
+    rep.analysed['build_flavours'] = [n for n, _ in flavours]
+    for fl, spec in flavours:
         rep.flavour = fl
         try:
-            facts = extract(fl)
+            facts = extract(fl, spec=spec)
         except FactError as e:
             rep.finding('BUILD ' + fl, 'fact extraction failed: %s' % e)
             continue
@@ -192,6 +217,11 @@ def run(prop, tier):
                 'flavour': fl, 'mir_bodies': len(facts['fns']), 'mir_opt_level': facts['mir_opt_level'],
                 'overflow_checks': facts['overflow_checks'], 'debug_assertions': facts['debug_assertions'],
                 'extract_s': facts['_extract_s']})
+            linked = [f['path'] for f in facts['fns'] if f.get('link_attrs')]
+            if linked:
+                rep.finding('BUILD-LINK fixed-name symbols %s' % ','.join(sorted(linked))[:120],
+                            'functions %s are exported under fixed symbol names (no_mangle / export_name / link_section): they can replace '
+                            'compiler or runtime support routines at link time, which no MIR-level analysis sees; fails closed' % sorted(linked))
             if facts.get('_build_script'):
                 rep.finding('BUILD-ENV build script', 'the crate now has a build script: what is compiled can depend on the build environment '
                                                       '(cfg flags, generated code) in ways the extracted facts do not show; fails closed')
